@@ -131,7 +131,10 @@ def tf_one(draw, kind: str, default_origin_ok: bool, composed: bool = False, via
         return {"k": kind, "via": via, "angle": ang, "axis": draw(direction()), "origin": draw(origins(default_origin_ok, nw))}
     if kind == "scale":
         lim = math.log(2.0) if composed else math.log(5.0)
-        return {"k": kind, "via": via, "ratio": math.exp(draw(fl(-lim, lim))), "origin": draw(origins(default_origin_ok, nw))}
+        ratio = math.exp(draw(fl(-lim, lim)))
+        if not composed and draw(st.integers(0, 2)) == 0:
+            ratio = draw(st.sampled_from([1e-3, 1e3, 1e-3, 1e-2, 1e2]))  # unit conversions (mm <-> m, cm <-> m)
+        return {"k": kind, "via": via, "ratio": ratio, "origin": draw(origins(default_origin_ok, nw))}
     if kind == "mirror":
         # origin None is documented as [0, 0, 0] for every class
         return {"k": kind, "via": via, "normal": draw(direction()), "origin": draw(origins(True))}
@@ -327,6 +330,8 @@ def tf_labels(tf: List[dict]) -> List[str]:
         v = t.get("axis", t.get("normal"))
         if v is not None:
             out.append("dir=" + ("unit" if is_unit(v) else "non-unit") + ("/aligned" if is_aligned(v) else "/general"))
+    if any(t["k"] == "scale" and not 0.1 < t["ratio"] < 10 for t in tf):
+        out.append("ratio=unit-conversion")
     out.append(f"steps={len(tf)}")
     return out
 
@@ -560,7 +565,8 @@ def compare(g0: Geo, g1: Geo, ap: Applied, shared: Optional[set] = None, pos_tol
     labels: List[str] = []
     if len(g0.pos) != len(g1.pos):
         return [Disc("block-count", f"{len(g0.pos)} blocks before, {len(g1.pos)} after")], labels
-    ext = max(g0.extent * max(1.0, s), g1.extent)
+    # relative to the coordinates of the transformed geometry (its image under M and what the library produced)
+    ext = max([float(np.max(np.abs(rm.apply(M, p)))) for p in g0.pos] + [float(np.max(np.abs(p))) for p in g1.pos] + [0.0])
     tol = pos_tol * (1 + ext)
     maps: List[List[int]] = []
     bad_all: List[Tuple[int, int]] = []  # (block, corner) in the numbering of g1
@@ -730,13 +736,30 @@ def raise_first(discs: List[Disc], facts: dict) -> None:
     raise Violation(d.kind, d.msg, **f)
 
 
-def arc_margin(g: Geo) -> float:
-    """smallest |arm1 x arm2| over the arc edges (the library drops arcs below TOL = 1e-7 as collinear)"""
-    m = float("inf")
-    for r in g.edges.values():
-        if r["kind"] in ARC_KINDS:
-            m = min(m, nrm(np.cross(r["v1"] - r["third"], r["v2"] - r["third"])))
-    return m
+def arc_crosses(g: Geo) -> List[float]:
+    """|arm1 x arm2| of every arc edge: the library drops an arc as collinear when this is below TOL = 1e-7"""
+    return [nrm(np.cross(r["v1"] - r["third"], r["v2"] - r["third"])) for r in g.edges.values() if r["kind"] in ARC_KINDS]
+
+
+def near_tol(g: Geo, s: float) -> bool:
+    """some arc or vertex distance is, before or after scaling by s, within 100 x of the library's absolute TOL"""
+    for c in arc_crosses(g):
+        if 1e-9 < c < 1e-5 or 1e-9 < c * s * s < 1e-5:
+            return True
+    return min_separation(g) * min(1.0, s) < 1e-5
+
+
+def cap_scale(tf: List[dict], g: Geo) -> Tuple[List[dict], bool]:
+    """A single down-scaling step is capped so that the scaled entity keeps clear (100 x) of the library's absolute
+    TOL = 1e-7 (vertex merging, collinearity test of arcs); returns (steps, capped?)"""
+    if len(tf) != 1 or tf[0]["k"] != "scale" or tf[0]["ratio"] >= 1:
+        return tf, False
+    arcs = [c for c in arc_crosses(g) if c >= 1e-5]
+    need = max(math.sqrt(1e-5 / min(arcs)) if arcs else 0.0, 1e-5 / min_separation(g))
+    need = min(1.0, 1.05 * need)
+    if tf[0]["ratio"] >= need:
+        return tf, False
+    return [dict(tf[0], ratio=need)], True
 
 
 def min_separation(g: Geo) -> float:
